@@ -211,6 +211,19 @@ def match_line_block(text, pos, number, items, strict):
 
 
 # ---- text writer -------------------------------------------------------------------------------------
+# the text writer documents exactly three backslash escapes in a template, written literally as two characters
+TEMPLATE_ESCAPES = (("\\r", "\r"), ("\\n", "\n"), ("\\t", "\t"))
+
+
+def translate_escapes(template):
+    """The template as the text writer interprets it: the two-character sequences backslash-r, backslash-n, backslash-t
+    become CR, LF, TAB (replaced in that order, each over the whole template); every other character - other backslash
+    sequences, a trailing backslash, non-ASCII text - stays as it is."""
+    for old, new in TEMPLATE_ESCAPES:
+        template = template.replace(old, new)
+    return template
+
+
 class Undefined(Exception):
     """The template itself is not applicable to this record (Python's format() refuses it)."""
 
@@ -294,6 +307,7 @@ def selftest(n=3000, seed=1):
             assert got == exp, (p, got, r)
         assert std_parse(text) == rows, (text, rows)
     assert apply_template("a{{b}}{x}{y!r:>5}{z}", {"x": 1, "y": "q"}) == "a{b}1  'q'{z}"
+    assert translate_escapes("na\u00efve \u2192 {n}\\t{c} \u20ac\\x41\\\\n\\") == "na\u00efve \u2192 {n}\t{c} \u20ac\\x41\\\n\\"
     text = "--[ RECORD 2 ]--\n a = 1\nbc = x\ny\n"
     pos, why = match_line_block(text, 0, 2, [("a", "1"), ("bc", "x\ny")], True)
     assert why is None and pos == len(text), (pos, why)
